@@ -88,7 +88,7 @@ def evaluate(chk, cs, outs, stats):
         meta.append((ns, txt, where))
     if ol:
         r = tlc.run_tlc("PvTime", "INIT Init\nNEXT Next\nINVARIANT Report\n",
-                        {"PvData": tlc.data_module("PvData", {"Obs": "<<\n " + ",\n ".join(ol) + "\n>>"}, extends="Integers, Sequences")},
+                        {"PvData": tlc.data_module("PvData", {"DayRange": "{}", "Obs": "<<\n " + ",\n ".join(ol) + "\n>>"}, extends="Integers, Sequences")},
                         modules=["PvTime"], workers=1, allow_violation=False)
         stats["states"] = stats.get("states", 0) + r.distinct
         stats["generated"] = stats.get("generated", 0) + r.generated
